@@ -94,6 +94,18 @@ def render_expr(ctx, f, e, _depth=0) -> str:
             ts = {render_expr(ctx, f, v, _depth + 1) for v in vals}
             if len(ts) == 1 and not (len(vals) == 1 and isinstance(vals[0], ast.Name) and ts == {"⟨" + vals[0].id + "⟩"}):
                 return ts.pop()
+        elif vals and len(vals) > 1 and any(v is not None and _is_strish(v) for v in vals) and _depth <= 2:
+            # `name = f"..."` on one path, `name = registry_entry['field']` on another, where the entry was filed with this very name
+            try:
+                t = trace(ctx, Scope(f), e)
+            except RecursionError:
+                t = None
+            if t is not None and not t.opaque():
+                leaves = [l for l in t.leaves if not (l.kind == "const" and l.node.value is None)]
+                if leaves and all(l.scope.parent is None and _is_strish(l.node) for l in leaves):
+                    ts = {render(ctx, f, l.node, _depth + 1) for l in leaves}
+                    if len(ts) == 1 and None not in ts:
+                        return ts.pop()
     return "⟨" + ast.unparse(e) + "⟩"
 
 
@@ -1256,6 +1268,12 @@ def trace(ctx, scope: Scope, expr, sel: tuple = (), max_depth: int = 60, stop=No
                 go(sc, recv, (("key", const_str(e.args[0])),) + s, depth + 1)
                 if len(e.args) > 1:
                     go(sc, e.args[1], s, depth + 1)
+            elif cn in ("get", "pop") and recv is not None and 1 <= len(e.args) <= 2 and not e.keywords \
+                    and isinstance(recv, (ast.Name, ast.Attribute)) and not (isinstance(recv, ast.Name) and recv.id in ("np", "os")):
+                res.indexed.append(e)
+                go(sc, recv, (("elem",),) + s, depth + 1)
+                if len(e.args) > 1:
+                    go(sc, e.args[1], s, depth + 1)
             else:
                 g = resolve_single(ctx, f, e)
                 rets = returns_of(g) if g is not None else []
@@ -1286,6 +1304,24 @@ def trace(ctx, scope: Scope, expr, sel: tuple = (), max_depth: int = 60, stop=No
                 if k not in seen:
                     seen.add(k)
                     container_stores(sc, e.id, s, depth)
+            return
+        if isinstance(e, ast.Attribute) and isinstance(e.value, ast.Name) and e.value.id == f.self_name and s and s[0][0] in ("elem", "key"):
+            # a container kept on the object (`self.registry[k] = v` ... `self.registry.get(k)`): what this function files in it
+            k = (sc.key(), "attr-stores", e.attr, s)
+            found = False
+            if k not in seen:
+                seen.add(k)
+                for n in walk_shallow(f.node):
+                    if isinstance(n, ast.Assign):
+                        for t in n.targets:
+                            if isinstance(t, ast.Subscript) and isinstance(t.value, ast.Attribute) and t.value.attr == e.attr \
+                                    and isinstance(t.value.value, ast.Name) and t.value.value.id == f.self_name:
+                                if s[0][0] == "elem" or const_str(t.slice) == s[0][1]:
+                                    found = True
+                                    res.containers.append("self." + e.attr)
+                                    go(sc, n.value, s[1:], depth + 1)
+                if not found:
+                    leaf(sc, e, s, "opaque")
             return
         leaf(sc, e, s)
 
